@@ -265,10 +265,20 @@ def check_C06(tier):
             obs += o
         obs += K.capacity_rules(f)
         rep.add(cfg, obs)
-    rep.analysed = {"configurations": cl, "longest_midpoint_digits": need}
+    tcl = ["default"] if tier == "quick" else E4_CONFIGS
+    jobs = [{"config": c, "mode": "dbg", "model": "valid", "kind": "fn", "target": d, "post": "truncation"}
+            for c in tcl for d in ("minimal_lexical::parse::parse_number", "minimal_lexical::parse::parse_number_fast")]
+    results = run_jobs(jobs)
+    tfx = F.build_many([(c, "dbg") for c in tcl])
+    _e4_report(rep, "C06", results, lambda j: "%s typestate" % j["config"], {"%s typestate" % c: tfx[(c, "dbg")] for c in tcl}, floor_per_group=2)
+    rep.note("the same typestate for slow::parse_mantissa (stops early only with count >= max_digits) is NOT claimed: the engine merges its exit "
+             "states inside the macro-expanded loops and loses the count/max_digits relation")
+    rep.analysed = {"configurations": cl, "longest_midpoint_digits": need, "typestate_entry_points": sorted(set(j["target"] for j in jobs))}
     rep.note("NOT decided: rounding of the truncated value. Decided: MAX_DIGITS is at least the longest exact decimal expansion of any midpoint between adjacent floats (computed by big-integer enumeration over all binades), and retaining that many digits fits the big-integer capacity")
     return rep.finish(
         "other",
+        "(Typestate, E4) at every exit of parse_number either many_digits is set or both input iterators are exhausted; parse_number_fast returns "
+        "Some only with both exhausted: a digit can be left unread by the 19-digit stage only if the result says so. "
         "Necessary condition of long-input rounding: MAX_DIGITS >= D_mid(F), where D_mid is computed exactly (768 for f64, 113 for f32 on IEEE parameters "
         "taken from the compiler); with fewer retained digits an exact tie is replaced by prefix||1 < tie and rounds the wrong way. Plus the capacity "
         "formula of DESIGN appendix B evaluated on the extracted constants.",
@@ -338,6 +348,12 @@ def check_C18(tier):
         obs += E.hits_to_obs("R18.1", R181, h, n)
         rep.floor("%s: instances of round / round_nearest_tie_even" % cfg, n, 4)
         rep.add(cfg, obs)
+    rcl = ["default"] if tier == "quick" else ["default", "compact", "nostd", "nostd_compact"]
+    jobs = [{"config": c, "mode": "dbg", "model": "valid", "kind": "fn", "target": "minimal_lexical::rounding::round", "pre": "round", "post": "round"} for c in rcl]
+    results = run_jobs(jobs)
+    rfx = F.build_many([(c, "dbg") for c in rcl])
+    _e4_report(rep, "C18", results, lambda j: "%s round" % j["config"], {"%s round" % c: rfx[(c, "dbg")] for c in rcl},
+               fn_filter=lambda o: o["kind"].startswith("post:") or o["fn"].startswith(("minimal_lexical::rounding::", "minimal_lexical::mask::")), floor_per_group=5)
     fixture = E.fixture_view(F.build_fixture("rel"))
     h, _ = E.r_must_consult_callback(fixture, ("bad::ctl_skip_callback", "bad::ok_always_callback"))
     rep.add("controls", [E.control_obs("R18.1", R181, [E.Hit(x.fn.replace("bad::", ""), x.what) for x in h], "ctl_skip_callback"),
@@ -373,6 +389,18 @@ def check_C12(tier):
         obs += E.hits_to_obs("R12.4", R4, h, n)
         rep.floor("%s: wrapping_* sites in bigint" % cfg, n, 3)
         rep.add(cfg, obs)
+    ecl = ["default"] if tier == "quick" else ["default", "compact", "nostd", "nostd_compact"]
+    jobs = []
+    for c in ecl:
+        f0 = fx.get((c, "rel")) or F.build(c, "rel")
+        for d in _stackvec_entries(f0):
+            for m in ("dbg", "rel"):
+                jobs.append({"config": c, "mode": m, "model": "arbitrary", "kind": "fn", "target": d})
+    results = [r for r in run_jobs(jobs) if not ("error" in r and "no instance" in r["error"])]
+    efx = F.build_many([(c, "rel") for c in ecl])
+    _e4_report(rep, "C12", results, lambda j: "%s/%s big-integer layer" % (j["config"], j["mode"]),
+               {"%s/%s big-integer layer" % (c, m): efx[(c, "rel")] for c in ecl for m in ("dbg", "rel")},
+               fn_filter=lambda o: o["fn"].startswith(("minimal_lexical::bigint::", "minimal_lexical::stackvec::")), floor_per_group=30)
     hw, _ = E.r_wrapping_arith(fixture, "bad::", set())
     h, _ = E.r_dropped_failure(fixture)
     ctl = [E.control_obs("R12.1", R, h, "ctl_dropped_failure"), E.control_obs("R12.4", R4, [E.Hit(x.fn.replace("bad::", ""), x.what) for x in hw], "ctl_wrapping_limb")]
@@ -382,6 +410,8 @@ def check_C12(tier):
     rep.analysed = {"configurations": cl}
     return rep.finish(
         "other",
+        "(E4, modular under the vector invariant) in bigint.rs / stackvec.rs every non-wrapping `+ - *` cannot overflow, every narrowing cast is "
+        "value-preserving except the audited halves of the widening idiom, raw accesses stay in capacity. "
         "Failure discipline: every call to a library function returning Option/Result has its result read (MIR def-use), so a capacity failure "
         "cannot be silently ignored; LARGE_POW5 = 5^LARGE_POW5_STEP and SMALL_INT_POW5 exact. Exactness of the carry chains is NOT decided here.",
         [A_TOOL, A_TARGET],
@@ -404,6 +434,9 @@ def check_C05(tier):
             obs.append(K.Ob("BASE10_SMALL_INT_POWERS = 10^i", all(v == 10 ** i for i, v in enumerate(sint)), "%d entries" % len(sint),
                             "X:compact integer powers equal the default configuration's SMALL_INT_POW10 definition (10^i)"))
         rep.add(cfg, obs)
+    results = run_jobs(_cutoff_jobs(cl))
+    _e4_report(rep, "C11", results, lambda j: "%s early-outs" % j["config"], {"%s early-outs" % c: fx[(c, "rel")] for c in cl},
+               fn_filter=lambda o: o["kind"].startswith("post:"), floor_per_group=3)
     rep.analysed = {"configurations": cl}
     rep.note("NOT decided: bit-equality of Eisel-Lemire vs Bellerophon, or of table look-ups vs powf. Decided: constants shared by name agree in all analysed configurations; each configuration-specific table meets the same definition-level contract")
     return rep.finish(
@@ -604,6 +637,49 @@ def check_C13(tier):
     )
 
 
+
+def check_C19(tier):
+    rep = Report("C19", tier)
+    cl = ["default"] if tier == "quick" else ["default", "compact"]
+    copies = [c for c, _ in F.FRONTEND_COPIES]
+    ftys = ["f64"] if tier == "quick" else ["f64", "f32"]
+    jobs = [{"config": c, "mode": "dbg", "model": "arbitrary", "kind": "frontend", "target": "root_fe_%s_%s" % (k, t), "frontends": True}
+            for c in cl for k in copies for t in ftys]
+    sjobs = [{"config": "default", "mode": "dbg", "model": "arbitrary", "kind": "fn", "target": "roots::fe_%s::parse_exponent" % k,
+              "pre": pre, "post": post, "frontends": True} for k in copies for pre, post in (("pos", "sat+"), ("neg", "sat-"))]
+    results = run_jobs(jobs + sjobs)
+    fx = F.build_many([(c, "dbg") for c in cl])
+    fxs = {"%s/%s" % (c, k): fx[(c, "dbg")] for c in cl for k in copies}
+    fxs.update({"saturation/%s" % k: fx[("default", "dbg")] for k in copies})
+    _e4_report(rep, "C19", [r for r in results if r["job"]["kind"] == "frontend"], lambda j: "%s/%s" % (j["config"], j["target"].split("_")[2]), fxs,
+               fn_filter=lambda o: o["fn"].startswith("roots::"), floor_per_group=8)
+    _e4_report(rep, "C11", [r for r in results if r["job"]["kind"] == "fn"], lambda j: "saturation/%s" % j["target"].split("::")[1][3:], fxs,
+               fn_filter=lambda o: o["kind"].startswith("post:"), floor_per_group=2)
+    rep.floor("front-end copies analysed", len(set(j["target"].split("_")[2] for j in jobs)), 7)
+    rep.analysed["copies"] = dict(F.FRONTEND_COPIES)
+    rep.analysed["configurations"] = cl
+    rep.note("NOT decided: that the accepted grammar is exactly the stated regular language, the value (inherits C01/C02), and that exponent "
+             "saturation happens only for exponents beyond i32. The four etc/correctness copies use crates that are not available offline; their "
+             "front-end functions are extracted from rustc's own pretty-printer output (-Zunpretty=normal) and compiled against the library")
+    return rep.finish(
+        "other",
+        "Each of the 7 copies of the shipped front-end (examples/simple.rs, fuzz/fuzz_targets/parse.rs, tests/integration_tests.rs and the four "
+        "etc/correctness tools) is compiled as a module of the analysis crate and executed abstractly on ARBITRARY bytes (every value 0..=255, any "
+        "length) in debug MIR: no slice index, range index, arithmetic check or unwrap of the front-end's own code can fail (PROVEN from loop "
+        "invariants such as index <= len, or AUDITED where the argument is about byte contents), the library is called on sub-slices of the input "
+        "and the returned remainder is a sub-slice of the input; parse_exponent returns its saturation constant only on paths that imply the "
+        "accumulator was about to leave the i32 range (saturates absurd exponents, and only those). The library call itself is summarised (C04/C08).",
+        A_E4 + [A_TOOL, A_TARGET],
+    )
+
+def _cutoff_jobs(cfgl):
+    jobs = []
+    for c in cfgl:
+        tgt = "minimal_lexical::bellerophon::bellerophon" if "compact" in c else "minimal_lexical::lemire::compute_float"
+        jobs.append({"config": c, "mode": "dbg", "model": "valid", "kind": "fn", "target": tgt, "pre": "moderate", "post": "cutoff"})
+    return jobs
+
+
 EXP_FNS = ("minimal_lexical::parse::", "minimal_lexical::slow::slow", "minimal_lexical::slow::scientific_exponent", "minimal_lexical::number::")
 
 
@@ -619,16 +695,24 @@ def check_C07(tier):
         rep.floor("%s: cut-off rules" % cfg, len(obs), 8)
         rep.add(cfg + " cut-offs", obs)
     mm = [("dbg", "valid"), ("rel", "valid")]
-    results = run_jobs(_root_jobs(cl, mm))
+    ccl = ["default", "compact"] if tier == "quick" else E4_CONFIGS
+    results = run_jobs(_root_jobs(cl, mm) + _cutoff_jobs(ccl))
+    cfx = F.build_many([(c, "rel") for c in ccl if (c, "rel") not in fx])
+    fx.update(cfx)
     fxs = {"%s/%s" % (c, m): fx[(c, "rel")] for c in cl for m, _ in mm}
-    _e4_report(rep, "C07", results, lambda j: "%s/%s" % (j["config"], j["mode"]), fxs,
+    fxs.update({"%s early-outs" % c: fx[(c, "rel")] for c in ccl})
+    _e4_report(rep, "C07", [r for r in results if r["job"].get("post") != "cutoff"], lambda j: "%s/%s" % (j["config"], j["mode"]), fxs,
                fn_filter=lambda o: o["fn"].startswith(EXP_FNS), floor_per_group=10)
+    _e4_report(rep, "C11", [r for r in results if r["job"].get("post") == "cutoff"], lambda j: "%s early-outs" % j["config"], fxs,
+               fn_filter=lambda o: o["kind"].startswith("post:"), floor_per_group=3)
     rep.analysed["configurations"] = cl
     rep.analysed["exponent_bookkeeping_functions"] = list(EXP_FNS)
     rep.note("NOT decided: correct rounding of subnormals and the exact overflow threshold")
     return rep.finish(
         "other",
-        "(1) Cut-off rules: the decimal-exponent early-outs of both moderate stages imply the value they return. (2) No wrap-around in exponent "
+        "(1) Cut-off rules: the decimal-exponent constants imply zero/infinity, and (E4 post-condition) every call-free exit of compute_float / "
+        "bellerophon that returns a literal zero or infinity is implied by the exponent bound of its own path (10^q_lo >= 2^(bias+1), "
+        "2^64*10^q_hi <= 2^(-bias-p)) -- the comparison operators, not only the constants. (2) No wrap-around in exponent "
         "bookkeeping: in the functions that compute the decimal exponent (parse::*, number::*, slow::slow, slow::scientific_exponent) every narrowing "
         "integer cast is value-preserving and every non-wrapping_* `+ - *` cannot overflow, for every valid input with lengths below 2^62 and any i32 "
         "exponent, in debug and release MIR.",
@@ -649,6 +733,7 @@ CHECKS = {
     "C14": check_C14,
     "C17": check_C17,
     "C18": check_C18,
+    "C19": check_C19,
     "C15": check_C15,
     "C16": check_C16,
 }
